@@ -114,8 +114,31 @@ fn items_str(items: &[Val], out: &mut String) {
     }
 }
 
+/// a message that writes some text and then fails (std turns that into a panic of the formatting call)
+struct Failing;
+impl std::fmt::Display for Failing {
+    fn fmt(&self, f: &mut std::fmt::Formatter) -> std::fmt::Result {
+        f.write_str("ab\u{20ac}STALE")?;
+        Err(std::fmt::Error)
+    }
+}
+
 fn run(case: &Val) -> Val {
     let c = case.l();
+    if c[2].str() == "poison" {
+        // target "poison": on this thread records whose message fails half-way inside right-aligned, left-aligned,
+        // truncated and nested fields were encoded (the failure caught) before the observed one
+        for pat in ["[{m:>40}]", "{({l} {m}):>30.35}|{m:<20}|{m:.50}", "{({m:>25}):>50}"] {
+            let _ = std::panic::catch_unwind(|| {
+                let enc = PatternEncoder::new(pat);
+                let mut sink = ScriptSink { script: vec![], calls: 0, out: Vec::new() };
+                let _ = enc.encode(
+                    &mut sink,
+                    &log::Record::builder().level(log::Level::Warn).args(format_args!("x{}y", Failing)).build(),
+                );
+            });
+        }
+    }
     let script: Vec<usize> = c[0].l().iter().map(|v| v.u()).collect();
     let pieces: Vec<String> = c[1].l().iter().map(|v| v.str()).collect();
     let target = c[2].str();
